@@ -157,7 +157,7 @@ def run_case(case):
                         raised = True
                         stats["steps_raised"] += 1
                         exc_hist[o.exc_name() or o.kind] = exc_hist.get(o.exc_name() or o.kind, 0) + 1
-                        if o.kind in ("hang", "budget"):
+                        if o.kind in ("hang", "budget", "deadlock"):
                             viol.append({"mechanism": "non-termination", "detail": "%s: step %d %s: %s" % (where, i, step["op"], o.brief(120))})
                         break
                     stats["steps_survived"] += 1
